@@ -176,6 +176,15 @@ def loop_progress(chk: Check) -> None:
                 if isinstance(node, ast.While):
                     n += 1
                     calls = {c.func.attr if isinstance(c.func, ast.Attribute) else getattr(c.func, "id", "") for c in ast.walk(node.test) if isinstance(c, ast.Call)}
+                    # a call in the condition that is handed (or invoked on) a parameter of the function, i.e. the input
+                    # object itself, is taken to consume input: parse_length_prefixed(cls, inp), inp.read(1), helper(inp)
+                    params = {a.arg for a in fn.args.args + fn.args.kwonlyargs + fn.args.posonlyargs} - {"self", "cls"}
+                    for c in ast.walk(node.test):
+                        if isinstance(c, ast.Call):
+                            roots = [x.id for a_ in list(c.args) + ([c.func.value] if isinstance(c.func, ast.Attribute) else []) for x in ast.walk(a_) if isinstance(x, ast.Name)]
+                            self_attr = any(isinstance(x, ast.Attribute) and isinstance(x.value, ast.Name) and x.value.id == "self" for a_ in list(c.args) + ([c.func.value] if isinstance(c.func, ast.Attribute) else []) for x in ast.walk(a_))
+                            if (set(roots) & params or self_attr) and (getattr(c.func, "id", None) not in ("len", "isinstance", "bool", "min", "max")):
+                                calls.add("read")
                     inst = f"{mod}.{fn.name}: while {ast.unparse(node.test)[:60]}"
                     if calls & CONSUMERS:
                         chk.ok(rule, inst, {"consumes": sorted(calls & CONSUMERS)})
